@@ -5,7 +5,9 @@
    A gate is described abstractly by the harness:
      g_mro    type ids along type(g).mro() (most derived first)
      g_val    class of the gate under ==              (instance families with ignore_global_phase=False, the hash fast path)
-     g_phase  class of the gate up to global phase    (instance families, the default)
+     g_phase  the instance-family gates (by their ids) this gate equals up to global phase, as cirq.equal_up_to_global_phase
+              documents it: same eigen-family and equal matrices up to phase for two EigenGates, equal matrices up to phase otherwise
+              (the relation is not transitive, so it is a list of instances, not a class)
      g_sym    the gate has unresolved symbols
      g_int    EigenGate whose exponent is an integer
      g_nq     number of qubits
@@ -16,7 +18,7 @@ From Coq Require Import List Arith Bool.
 Import ListNotations.
 
 Inductive gdesc :=
-  GD (g_mro : list nat) (g_val g_phase : nat) (g_sym g_int : bool) (g_nq : nat) (g_unit g_var : bool) (g_sub : option gdesc).
+  GD (g_mro : list nat) (g_val : nat) (g_phase : list nat) (g_sym g_int : bool) (g_nq : nat) (g_unit g_var : bool) (g_sub : option gdesc).
 Definition g_mro (g : gdesc) := let 'GD m _ _ _ _ _ _ _ _ := g in m.
 Definition g_val (g : gdesc) := let 'GD _ v _ _ _ _ _ _ _ := g in v.
 Definition g_phase (g : gdesc) := let 'GD _ _ p _ _ _ _ _ _ := g in p.
@@ -32,7 +34,7 @@ Definition disjoint (a b : list nat) : bool := negb (existsb (fun x => nmem x b)
 
 (* ---------- gate families ---------- *)
 (* GateFamily(gate=type) / GateFamily(gate=instance, ignore_global_phase) *)
-Inductive base := BType (ty : nat) | BInst (val phase : nat) (ignore_phase : bool).
+Inductive base := BType (ty : nat) | BInst (val inst : nat) (ignore_phase : bool).   (* inst: id of the family's own gate *)
 Inductive fkind :=
 | FBase (b : base)
 | FIntPow (ty : nat)                              (* AnyIntegerPowerGateFamily *)
@@ -44,7 +46,7 @@ Record family := mkF { f_kind : fkind; f_accept : list nat; f_ignore : list nat 
 Definition base_pred (b : base) (g : gdesc) : bool :=
   match b with
   | BType ty => nmem ty (g_mro g)                                 (* isinstance(gate, self.gate) *)
-  | BInst v p ign => if ign then Nat.eqb (g_phase g) p else Nat.eqb (g_val g) v
+  | BInst v p ign => if ign then nmem p (g_phase g) else Nat.eqb (g_val g) v
   end.
 Definition kind_pred (k : fkind) (g : gdesc) : bool :=
   match k with
@@ -110,8 +112,13 @@ Fixpoint validate_op (gs : gateset) (o : opd) : bool :=
   | OOther _ => false
   end.
 Definition validate (gs : gateset) (ops : list opd) : bool := forallb (validate_op gs) ops.
-(* `op in gateset` (used by the devices): as validate_op *)
-Definition op_in_gateset (gs : gateset) (o : opd) : bool := validate_op gs o.
+(* `op in gateset` (Gateset.__contains__ on an operation, used by the devices): operations with a gate go
+   straight to the families (no intermediate-tag check), the others through _validate_operation *)
+Definition op_in_gateset (gs : gateset) (o : opd) : bool :=
+  match o with
+  | OGate g tags => gateset_contains_gate gs g (IOp (Some g) tags)
+  | _ => validate_op gs o
+  end.
 
 (* ---------- devices ---------- *)
 (* which operations need their qubit pair(s) checked *)
